@@ -112,7 +112,9 @@ namespace ST
         size_t size() const noexcept { return m_size; }
 
     private:
-        char m_buffer[64];
+        // Large enough for "%f" of the largest finite value
+        char m_buffer[std::numeric_limits<float_T>::max_exponent10 + 16 < 64
+                      ? 64 : std::numeric_limits<float_T>::max_exponent10 + 16];
         size_t m_size;
     };
 }
